@@ -35,6 +35,25 @@ def op_dict(h: Dict[str, Any]) -> Dict[str, Any]:
     return d
 
 
+def _floats(v: Any) -> Any:
+    if isinstance(v, bool) or v is None or isinstance(v, str):
+        return v
+    if isinstance(v, int):
+        return float(v)
+    if isinstance(v, list):
+        return [_floats(x) for x in v]
+    if isinstance(v, dict):
+        return {k: _floats(x) for k, x in v.items()}
+    return v
+
+
+def op_dict_floats(o: Dict[str, Any]) -> Dict[str, Any]:
+    d = copy.deepcopy(o)
+    if "value" in d:
+        d["value"] = _floats(d["value"])
+    return d
+
+
 def tok_class(doc: Any, ptr: str) -> str:
     """Describe the last token of a pointer relative to a Python document (for signatures)."""
     if ptr == "":
@@ -101,6 +120,18 @@ def observe(ops: List[Dict[str, Any]], doc_t: Dict[str, Any], entry: str) -> Dic
             except Exception:  # noqa: BLE001
                 pass
             out = patch.apply(text_doc)
+        elif entry == "values-spelled-as-floats":
+            # the same numbers written 1.0 for 1 in the operations (the document keeps its spelling): equal JSON values
+            fops = [op_dict_floats(o) for o in ops]
+            out = JSONPatch(fops).apply(doc)
+        elif entry == "after-a-patch-read-with-other-options":
+            # somebody else's patch, read with URI decoding on and escape decoding off, holds the same pointer texts:
+            # how a text is read belongs to the patch it is given to
+            try:
+                JSONPatch(copy.deepcopy(ops), unicode_escape=False, uri_decode=True).apply(untag(doc_t))
+            except Exception:  # noqa: BLE001
+                pass
+            out = JSONPatch(copy.deepcopy(ops)).apply(doc)
         elif entry == "JSONPatch-applied-twice":
             # one patch object, two documents: the second application must not see anything of the first
             patch = JSONPatch(copy.deepcopy(ops))
@@ -143,7 +174,9 @@ def replay(rec: Dict[str, Any]) -> List[Tuple[str, Dict[str, Any], str]]:
     ops = [op_dict(h) for h in hist]
     for k in range(1, len(hist) + 1):
         exp = hist[k - 1]["after"]
-        for entry in ("apply", "JSONPatch", "JSONPatch-applied-twice", "json-text-patched-twice", "builder-with-pointers-from-parts"):
+        # (the patch read with other options comes first: nothing in this process has seen these pointer texts under the default options yet)
+        for entry in ("after-a-patch-read-with-other-options", "apply", "JSONPatch", "JSONPatch-applied-twice", "json-text-patched-twice",
+                      "builder-with-pointers-from-parts", "values-spelled-as-floats"):
             obs = observe(ops[:k], rec["doc0"], entry)
             disc = judge(exp, obs)
             if disc:
